@@ -45,6 +45,14 @@ CHECKS.update({
    text='Breadth-first search on the implementation itself: states are URI objects (canonical key without addresses), transitions are real calls (normalize under 9 masks, makeOwner, resolve as reference/base against 8 bases x 2 options, shorten as source/base x 2 modes, write-and-reparse); from ~600-2500 initial parsed URIs to depth 4 (quick) / 7 (thorough) every reached state must recompose to a valid URI reference that re-parses to the same scheme, authority parts, path text, query and fragment, with a well-formed structure.',
    ref='DESIGN.md section 3, C07', note=TRUST + '; states are rebuilt by replaying operation histories on fresh objects'),
 })
+CHECKS.update({
+ 'C05': dict(cat='exploration', tech='bounded-exhaustive enumeration of (URI object, every capacity -1..len+2, charsWritten flag, char type) with the destination ending at a PROT_NONE page',
+   text='Every URI of the shape product - as parsed, normalised, resolved and shortened - is written with every capacity from -1 to required+2, with and without charsWritten, in both character types, into a buffer whose end (dest+capacity) is the first byte of an inaccessible page; return codes, charsWritten, terminator, empty-string-on-failure and exactness of charsRequired are checked on every call.',
+   ref='DESIGN.md section 3, C05', note=TRUST),
+ 'C16': dict(cat='exploration', tech='bounded-exhaustive enumeration of strings x flag combinations against an independent escape/unescape reference, with exact-size guard-placed buffers',
+   text='All single characters, all pairs over a 14-symbol alphabet and all strings up to length 5/6 over 7 symbols are escaped under both flags through both entry points into a buffer of exactly 3n+1 (6n+1) characters that ends at an inaccessible page; all strings up to length 6/7 over an 11-symbol alphabet (percent, hex digits in both cases, non-hex, plus, CR, LF) are unescaped in place under plus on/off and the four break modes in a buffer of exactly strlen+1 characters; results are compared with an independent reference and the escape/unescape round trip is checked; both character types.',
+   ref='DESIGN.md section 3, C16', note=TRUST),
+})
 NOT_YET = {}
 def main():
     props = [json.loads(l) for l in open(os.path.join(VERIF, 'properties.jsonl'))]
